@@ -29,6 +29,9 @@
 (*        still in the heap, so a notify-poll and a hook-poll can both be issued *)
 (*        for one free slot                                                      *)
 (*  "capacity_raise_no_wake" raising the limit does not wake the driver          *)
+(*  "shifted_ignores_policy" ShiftedServer.__init__ says `policy or FIFOQueue()`: *)
+(*        a policy object is falsy while empty, so the configured policy (order   *)
+(*        and capacity) is replaced by an unbounded FIFO                          *)
 EXTENDS QueueContract, TLC
 
 CONSTANTS Dev,
@@ -49,15 +52,18 @@ VARIABLES sc,       \* scenario [wk, lim, cap, pol, arr : Seq([t,h,s,p]), sh : [
           log,      \* ghost: observable records <<op, item, t, active, limit, depth>>
           cnt,      \* [accepted, dropped, completed, rejected] as the components count them
           over,     \* ghost: some start broke clause (b)
-          illegal   \* ghost: some item made a move outside its life cycle (clause (a))
-vars == <<sc, heap, ctr, clock, pq, active, limit, inited, status, eidx, lpop, log, cnt, over, illegal>>
+          illegal,  \* ghost: some item made a move outside its life cycle (clause (a))
+          misorder, \* ghost: some item left the queue out of the configured policy's order (d)
+          fin       \* the run is over (no primary event left); marks terminal states in dumps
+vars == <<sc, heap, ctr, clock, pq, active, limit, inited, status, eidx, lpop, log, cnt, over, illegal, misorder, fin>>
 
 Has(d) == d \in Dev
 N == Len(sc.arr)
 Ev(t, idx, k, i, h, d) == [t |-> t, idx |-> idx, k |-> k, i |-> i, h |-> h, d |-> d]
 Less(a, b) == a.t < b.t \/ (a.t = b.t /\ a.idx < b.idx)
 MinEv == CHOOSE e \in heap : \A o \in heap : o = e \/ Less(e, o)
-Runnable == { e \in heap : ~e.d } # {}    \* auto-termination: only daemon events left => stop
+RunnableH(h) == { e \in h : ~e.d } # {}
+Runnable == RunnableH(heap)    \* auto-termination: only daemon events left => stop
 InS == { i \in 1..N : status[i] = "inservice" }
 
 ArrRec == [t : Ticks, h : Hops, s : Svcs, p : Prios]
@@ -81,14 +87,16 @@ InitFor(s) ==
     /\ heap = Start(s).heap /\ ctr = Start(s).ctr /\ clock = 0 /\ pq = <<>> /\ active = 0
     /\ limit = Start(s).limit /\ inited = FALSE
     /\ status = Start(s).status /\ eidx = Start(s).zeros /\ lpop = Start(s).zeros
-    /\ log = <<>> /\ cnt = Start(s).cnt /\ over = FALSE /\ illegal = FALSE
+    /\ log = <<>> /\ cnt = Start(s).cnt /\ over = FALSE /\ illegal = FALSE /\ misorder = FALSE
+    /\ fin = ~RunnableH(Start(s).heap)
 \* the same, as the post-state of an action (used by QueueTrace to load the next scenario)
 LoadFor(s) ==
     /\ sc' = s
     /\ heap' = Start(s).heap /\ ctr' = Start(s).ctr /\ clock' = 0 /\ pq' = <<>> /\ active' = 0
     /\ limit' = Start(s).limit /\ inited' = FALSE
     /\ status' = Start(s).status /\ eidx' = Start(s).zeros /\ lpop' = Start(s).zeros
-    /\ log' = <<>> /\ cnt' = Start(s).cnt /\ over' = FALSE /\ illegal' = FALSE
+    /\ log' = <<>> /\ cnt' = Start(s).cnt /\ over' = FALSE /\ illegal' = FALSE /\ misorder' = FALSE
+    /\ fin' = ~RunnableH(Start(s).heap)
 
 Init == \E s \in ScenarioSet : InitFor(s)
 
@@ -97,10 +105,14 @@ Inflight(hp) == Cardinality({ e \in hp : e.k \in {"pol", "dlv", "wrk"} })
 CanPoll(act, lim, hp) ==
     IF Has("poll_ignores_inflight") THEN act < lim ELSE act + Inflight(hp) < lim
 
+Discarded == sc.wk = "shifted" /\ Has("shifted_ignores_policy")
+EffPol == IF Discarded THEN "fifo" ELSE sc.pol       \* the policy object actually installed
+EffCap == IF Discarded THEN Inf ELSE sc.cap
+PrioOf == [j \in 1..N |-> sc.arr[j].p]
 PopChoice(q) ==
-    CASE sc.pol = "fifo" -> q[1]
-      [] sc.pol = "lifo" -> q[Len(q)]
-      [] sc.pol = "prio" ->
+    CASE EffPol = "fifo" -> q[1]
+      [] EffPol = "lifo" -> q[Len(q)]
+      [] EffPol = "prio" ->
             q[CHOOSE k \in 1..Len(q) : \A j \in 1..Len(q) :
                  sc.arr[q[k]].p < sc.arr[q[j]].p \/ (sc.arr[q[k]].p = sc.arr[q[j]].p /\ k <= j)]
 
@@ -112,7 +124,7 @@ Move(i, to) == /\ status' = [status EXCEPT ![i] = to]
 Hop(e, hp) ==
     /\ heap' = hp \cup {Ev(e.t, ctr, IF e.h > 1 THEN "hop" ELSE "off", e.i, e.h - 1, FALSE)}
     /\ ctr' = ctr + 1
-    /\ UNCHANGED <<pq, active, limit, inited, status, eidx, lpop, log, cnt, over, illegal>>
+    /\ UNCHANGED <<pq, active, limit, inited, status, eidx, lpop, log, cnt, over, illegal, misorder>>
 
 Off(e, hp) ==
     LET first == sc.wk = "shifted" /\ ~inited
@@ -120,7 +132,7 @@ Off(e, hp) ==
         c0 == IF mkShift THEN ctr + 1 ELSE ctr
         shiftEv == IF mkShift THEN {Ev(sc.sh.t, ctr, "shf", 0, 0, TRUE)} ELSE {}
         wasEmpty == pq = <<>>
-        full == Len(pq) >= sc.cap
+        full == Len(pq) >= EffCap
     IN /\ inited' = (inited \/ first)
        /\ eidx' = [eidx EXCEPT ![e.i] = e.idx]
        /\ IF full
@@ -135,21 +147,22 @@ Off(e, hp) ==
                /\ log' = Logged("psh", e.i, e.t, active, limit, Len(pq) + 1)
                /\ heap' = hp \cup shiftEv \cup (IF wasEmpty THEN {Ev(e.t, c0, "ntf", 0, 0, FALSE)} ELSE {})
                /\ ctr' = IF wasEmpty THEN c0 + 1 ELSE c0
-       /\ UNCHANGED <<active, limit, lpop, over>>
+       /\ UNCHANGED <<active, limit, lpop, over, misorder>>
 
 Ntf(e, hp) ==
     /\ IF CanPoll(active, limit, hp)
        THEN heap' = hp \cup {Poll(e.t, ctr)} /\ ctr' = ctr + 1
        ELSE heap' = hp /\ ctr' = ctr
-    /\ UNCHANGED <<pq, active, limit, inited, status, eidx, lpop, log, cnt, over, illegal>>
+    /\ UNCHANGED <<pq, active, limit, inited, status, eidx, lpop, log, cnt, over, illegal, misorder>>
 
 Pol(e, hp) ==
     /\ IF pq = <<>>
        THEN /\ log' = Logged("pop0", 0, e.t, active, limit, 0)
             /\ heap' = hp /\ ctr' = ctr
-            /\ UNCHANGED <<pq, status, lpop, illegal>>
+            /\ UNCHANGED <<pq, status, lpop, illegal, misorder>>
        ELSE LET x == PopChoice(pq) IN
             /\ pq' = Remove(pq, x)
+            /\ misorder' = (misorder \/ ~LeavesInOrder(sc.pol, pq, x, SeqSet(pq) \ {x}, PrioOf, PrioOf))
             /\ Move(x, "transit")
             /\ lpop' = [lpop EXCEPT ![x] = limit]
             /\ log' = Logged("pop", x, e.t, active, limit, Len(pq) - 1)
@@ -159,7 +172,7 @@ Pol(e, hp) ==
 \* the payload event object is re-used: it keeps the sort index it was created with
 Dlv(e, hp) ==
     /\ heap' = hp \cup {Ev(e.t, eidx[e.i], "wrk", e.i, 0, FALSE)}
-    /\ UNCHANGED <<ctr, pq, active, limit, inited, status, eidx, lpop, log, cnt, over, illegal>>
+    /\ UNCHANGED <<ctr, pq, active, limit, inited, status, eidx, lpop, log, cnt, over, illegal, misorder>>
 
 Wrk(e, hp) ==
     IF sc.wk = "server" /\ active >= limit
@@ -169,7 +182,7 @@ Wrk(e, hp) ==
          /\ cnt' = [cnt EXCEPT !.rejected = @ + 1]
          /\ log' = Logged("rjq", e.i, e.t, active, limit, Len(pq))
          /\ heap' = hp /\ ctr' = ctr + 1
-         /\ UNCHANGED <<pq, active, limit, inited, eidx, lpop, over>>
+         /\ UNCHANGED <<pq, active, limit, inited, eidx, lpop, over, misorder>>
     ELSE LET repoll == ~Has("poll_once_per_notify") /\ pq # <<>> /\ CanPoll(active + 1, limit, hp) IN
          /\ active' = active + 1
          /\ Move(e.i, "inservice")
@@ -178,7 +191,7 @@ Wrk(e, hp) ==
          /\ heap' = hp \cup {Ev(e.t + sc.arr[e.i].s, ctr, "res", e.i, 0, FALSE)}
                        \cup (IF repoll THEN {Poll(e.t, ctr + 1)} ELSE {})
          /\ ctr' = ctr + 2
-         /\ UNCHANGED <<pq, limit, inited, eidx, lpop, cnt>>
+         /\ UNCHANGED <<pq, limit, inited, eidx, lpop, cnt, misorder>>
 
 Res(e, hp) ==
     /\ active' = active - 1
@@ -188,7 +201,7 @@ Res(e, hp) ==
     /\ IF CanPoll(active - 1, limit, hp)
        THEN heap' = hp \cup {Poll(e.t, ctr)} /\ ctr' = ctr + 1
        ELSE heap' = hp /\ ctr' = ctr
-    /\ UNCHANGED <<pq, limit, inited, eidx, lpop, over>>
+    /\ UNCHANGED <<pq, limit, inited, eidx, lpop, over, misorder>>
 
 Shf(e, hp) ==
     LET wake == ~Has("capacity_raise_no_wake") /\ pq # <<>> /\ CanPoll(active, sc.sh.l, hp) IN
@@ -196,7 +209,7 @@ Shf(e, hp) ==
     /\ log' = Logged("lim", 0, e.t, active, sc.sh.l, Len(pq))
     /\ IF wake THEN heap' = hp \cup {Poll(e.t, ctr)} /\ ctr' = ctr + 1
        ELSE heap' = hp /\ ctr' = ctr
-    /\ UNCHANGED <<pq, active, inited, status, eidx, lpop, cnt, over, illegal>>
+    /\ UNCHANGED <<pq, active, inited, status, eidx, lpop, cnt, over, illegal, misorder>>
 
 Step ==
     /\ Runnable
@@ -211,6 +224,7 @@ Step ==
                [] e.k = "wrk" -> Wrk(e, hp)
                [] e.k = "res" -> Res(e, hp)
                [] e.k = "shf" -> Shf(e, hp)
+    /\ fin' = ~RunnableH(heap')
     /\ UNCHANGED sc
 
 Next == Step
@@ -230,6 +244,9 @@ InvPartition ==
     /\ Counted(Cardinality(With("rejected")), cnt.dropped + cnt.rejected)
     /\ Cardinality(With("transit")) = Cardinality({ e \in heap : e.k \in {"dlv", "wrk"} })
 InvOnce == ~illegal /\ (KeepLog => \A i \in 1..N : Count("sta", i) <= 1 /\ Count("fin", i) <= 1 /\ Count("pop", i) <= 1)
+\* (d) order of the configured policy, (e) its capacity
+InvOrder == ~misorder
+InvCapacity == CapacityOK(Len(pq), sc.cap)
 \* (b)
 InvLimit == ~over
 \* (c) time is about to advance (or the run is over for good) => nobody waits next to a free slot
